@@ -655,6 +655,7 @@ class Translator:
                     hb = plain(h.body)
                     if h.type.id == 'FlushError' and len(hb) == 1 and isinstance(hb[0], ast.If) and not hb[0].orelse and \
                             isinstance(hb[0].test, ast.Compare) and isinstance(hb[0].test.left, ast.Constant) and \
+                            len(hb[0].test.ops) == 1 and isinstance(hb[0].test.ops[0], ast.In) and \
                             'conflicts with persistent instance' in str(hb[0].test.left.value):
                         hb = plain(hb[0].body)
                     bodies.append(hb)
